@@ -2242,7 +2242,7 @@ fn compile_quoted_string_ex(s: &str) -> String {
                 Some('a') => v.push(char::from_u32(7).unwrap()), // Bell
                 Some('b') => v.push(char::from_u32(8).unwrap()), // Backspace
                 Some('t') => v.push(char::from_u32(9).unwrap()), // Tab
-                Some('f') => v.push(char::from_u32(14).unwrap()), // Form feed
+                Some('f') => v.push(char::from_u32(12).unwrap()), // Form feed
                 Some('v') => v.push(char::from_u32(11).unwrap()), // Vertical tab
                 Some(a) => v.push(a),
                 _ => (),
